@@ -1,9 +1,10 @@
+import TplModel.Props.Loader
 import TplModel.Props.RenderProps
 import TplModel.Props.C04hdr
 import TplModel.Props.C05refine
 /-! # C04 — range renders the element once per item with index and item bound
 
-OBLIGATIONS: C04.extractRange_spec, C04.header_cases, C04.extractRange_trim, C04.F20_witness, RN.exec_refines_ref, RN.Props.range_once_per_item, RN.Props.range_empty, RN.Props.range_error
+OBLIGATIONS: C04.extractRange_spec, C04.header_cases, C04.extractRange_trim, C04.F20_witness, RN.exec_refines_ref, RN.Props.range_once_per_item, RN.Props.range_empty, RN.Props.range_error, EN.loaded_manager_ok, EN.execute_refines_loaded, EN.exec_refines_loaded
 
 `C04.extractRange_spec`: the header `idx, item : obj` is split at the first ':' and the first ',' before it, all
 parts trimmed (all strings). `C04.F20_witness`: a header-less object containing ':' is mis-split (known finding F20).
